@@ -202,6 +202,49 @@ type Input struct {
 	Oracle  string     // not "": the value returned by this call of a function outside the set
 }
 
+// forwarded: the callee has inputs that stand for what external calls inside it returned
+// (Oracle); the caller gets one input of its own for each of them, per call site:
+// x_<callee>_<k>_<name of the callee's input without x_> = that input of the k-th call of callee.
+func (t *ft) forwarded(x *ast.CallExpr, fo *types.Func, callee *Func, want *Input) string {
+	fw := t.oracles[x]
+	if fw == nil {
+		mark := fmt.Sprintf(" of %s)", fo.Name())
+		n := 1
+		seen := map[string]bool{}
+		for _, o := range t.orcl {
+			if i := strings.Index(o.Oracle, " (in call "); i >= 0 && strings.Contains(o.Oracle[i:], mark+"#") {
+				k := o.Oracle[i:strings.Index(o.Oracle, "#")]
+				if !seen[k] {
+					seen[k] = true
+					n++
+				}
+			}
+		}
+		for _, in := range callee.Inputs {
+			if in.Oracle == "" {
+				continue
+			}
+			h := strings.Index(in.Oracle, "#")
+			tag := fmt.Sprintf("%s (in call %d%s#%s", in.Oracle[:h], n, mark, in.Oracle[h+1:])
+			ni := &Input{Name: t.unique(fmt.Sprintf("x_%s_%d_%s", fo.Name(), n, strings.TrimPrefix(in.Name, "x_"))), Kind: in.Kind, Param: -1, Type: in.Type, Oracle: tag}
+			fw = append(fw, ni)
+			t.orcl = append(t.orcl, ni)
+		}
+		t.oracles[x] = fw
+	}
+	i := 0
+	for _, in := range callee.Inputs {
+		if in.Oracle == "" {
+			continue
+		}
+		if in == want {
+			return fw[i].Name
+		}
+		i++
+	}
+	return t.fail("internal: forwarded input of %s not found", callee.Name)
+}
+
 // Func is the result of translating one function.
 type Func struct {
 	Name    string // "F" or "T.M"; "import/path:F" for a function of another package
@@ -889,10 +932,18 @@ func (t *ft) call(x *ast.CallExpr) string {
 	var args []string
 	dests := map[*Input]*dest{}
 	for _, in := range callee.Inputs {
+		if in.Oracle != "" { // what an external call inside the callee returned: an input of ours as well
+			if in.Written {
+				return t.fail("call of %s, which calls external functions that write memory", callee.Name)
+			}
+			if len(t.touched) > 0 {
+				return t.fail("call of %s, which calls external functions, inside a loop", callee.Name)
+			}
+			args = append(args, t.forwarded(x, fo, callee, in))
+			continue
+		}
 		a := actual[in.Param]
 		switch {
-		case in.Oracle != "":
-			return t.fail("call of %s, which calls external functions", callee.Name)
 		case len(in.Path) == 0 && !in.LenOnly && in.Written: // a slice the callee writes: (a window of) a list of ours
 			d, ok := t.dest(a)
 			if !ok {
